@@ -59,6 +59,8 @@ class Check(HCheck):
             al.unrule(A),
         ]
         sp.append(Space(Cfg("domain", {Ax: "path3"}), ops2, 5 if thorough else 4, roots=[al.R0, al.R1], name="hier/domain+path3"))
+        # hierarchy queries around clear / reopen: two corpora, queries in between, every sequence
+        sp.append(Space(Cfg("domain"), R.lifecycle_ops() + [al.create(Axy), al.rule(A, "path1")], 5 if thorough else 4, roots=[al.R0], name="hier/lifecycle", dedup=False))
         return sp
 
     def check_state(self, w, ctx):
